@@ -240,6 +240,7 @@ func (vc *FuncVC) finish(st *State, fr *Frame, res []any) {
 	if ct == nil {
 		return
 	}
+	vc.frameCheck(st, sc, ct)
 	for _, c := range ct.Ensures {
 		if !vc.inProp(c.Tags) {
 			continue
@@ -252,6 +253,100 @@ func (vc *FuncVC) finish(st *State, fr *Frame, res []any) {
 		// each postcondition is checked independently (not assumed for the next one)
 		save := len(st.pc)
 		vc.addOblig(st, "ensures", fmt.Sprintf("ensures#%d%s", c.Ord, tag), c.Tags, g)
+		st.pc = st.pc[:save]
+	}
+}
+
+// frameCheck: every heap array the path changed may differ from its entry value
+// only at objects the contract lists under assigns (or allocated by the function).
+func (vc *FuncVC) frameCheck(st *State, sc *Scope, ct *Contract) {
+	if !vc.inProp(ct.AssignTags) {
+		return
+	}
+	allowed := map[string][]string{}
+	whole := map[string]bool{}
+	if contains(ct.Havoc, "user") {
+		dn, _, vn, _ := mapHeaps(vc.w, userMapType)
+		whole[dn], whole[vn], whole["H_SharedStore_data"] = true, true, true
+	}
+	func() {
+		defer func() {
+			if r := recover(); r != nil {
+				if se, ok := r.(specError); ok {
+					vc.unsupportedf("contract error in assigns of %s: %s", ct.Name, se.msg)
+					return
+				}
+				panic(r)
+			}
+		}()
+		w := vc.w
+		for _, a := range ct.Assigns {
+			switch x := a.(type) {
+			case EField:
+				b := sc.old.eval(x.X)
+				pt, ok := b.GT.Underlying().(*types.Pointer)
+				if !ok {
+					specFail("assigns %s: not a pointer", a)
+				}
+				nt, ok := pt.Elem().(*types.Named)
+				if !ok {
+					specFail("assigns %s: not a named struct", a)
+				}
+				stt := nt.Underlying().(*types.Struct)
+				for i := 0; i < stt.NumFields(); i++ {
+					f := stt.Field(i)
+					if x.F == "*" || f.Name() == x.F {
+						hn := fieldHeapName(nt, f)
+						allowed[hn] = append(allowed[hn], b.T)
+					}
+				}
+			case ECall:
+				if x.Fn != "contents" || len(x.Args) != 1 {
+					specFail("assigns %s: unsupported", a)
+				}
+				b := sc.old.eval(x.Args[0])
+				switch u := b.GT.Underlying().(type) {
+				case *types.Map:
+					dn, _, vn, _ := mapHeaps(w, u)
+					allowed[dn] = append(allowed[dn], b.T)
+					allowed[vn] = append(allowed[vn], b.T)
+				case *types.Slice:
+					hn, _ := elemsHeap(w.sortOf(u.Elem()))
+					allowed[hn] = append(allowed[hn], app("sarr", b.T))
+				default:
+					specFail("assigns %s: unsupported", a)
+				}
+			case EUnary:
+				b := sc.old.eval(x.X)
+				pt := b.GT.Underlying().(*types.Pointer)
+				hn, _ := cellHeap(w.sortOf(pt.Elem()))
+				allowed[hn] = append(allowed[hn], b.T)
+			default:
+				specFail("assigns %s: unsupported", a)
+			}
+		}
+	}()
+	alive0 := vc.heapInit("alive", aliveSort)
+	var names []string
+	for k := range st.heap {
+		names = append(names, k)
+	}
+	sort.Strings(names)
+	for _, h := range names {
+		if h == "alive" || strings.Contains(h, "@") || whole[h] {
+			continue
+		}
+		init, ok := vc.heapInits[h]
+		if !ok || st.heap[h] == init {
+			continue
+		}
+		conds := []string{sel(alive0, "r")}
+		for _, a := range allowed[h] {
+			conds = append(conds, not(eq("r", a)))
+		}
+		goal := fmt.Sprintf("(forall ((r Int)) (=> %s (= (select %s r) (select %s r))))", and(conds...), st.heap[h], init)
+		save := len(st.pc)
+		vc.addOblig(st, "frame", "frame:"+h, ct.AssignTags, goal)
 		st.pc = st.pc[:save]
 	}
 }
